@@ -9,17 +9,9 @@
 import ast
 
 from sa import dataflow as df
+from sa.termutil import kind_def
 from sa.term import ADD, H, I, INV, MUL, SCAL, T, VAR, TermEval, alternatives, equal, expand, has_opaque, norm, opaque_text, show, sym
 
-KIND_DEF = {
-    "Product": lambda a: ("fam", "mul", 1, VAR, f"{a}.Ms"),
-    "Sum": lambda a: ("fam", "add", 1, VAR, f"{a}.Ms"),
-    "Kronecker": lambda a: ("fam", "kron", 1, VAR, f"{a}.Ms"),
-    "KronSum": lambda a: ("fam", "ksum", 1, VAR, f"{a}.Ms"),
-    "Identity": lambda a: I,
-    "ScalarMul": lambda a: SCAL(("ssym", f"{a}.c"), I),
-    "Diagonal": lambda a: ("diag", sym(f"{a}.diag")),
-}
 
 
 def nospace(n):
@@ -103,8 +95,9 @@ def run(idx, rep, tier):
             te = TermEval(idx)
             defs = {}
             for pn, ks in ((pa, ka), (pb, kb)):
-                if len(ks) == 1 and ks[0] in KIND_DEF:
-                    defs[sym(pn)] = KIND_DEF[ks[0]](pn)
+                kd = kind_def(idx, ks[0], pn) if len(ks) == 1 else None
+                if kd is not None:
+                    defs[sym(pn)] = kd
             if fname == "mul":
                 # which side is the scalar?
                 a_scalar = "Any" in ka and "Any" not in kb
